@@ -278,7 +278,7 @@ impl CaseKind for Case9 {
 pub fn cfg_for(t: Tier, exact: bool) -> GenCfg {
     use Kind::*;
     let mut cfg = GenCfg::programs(exact);
-    cfg.kinds = vec![(Binary, 24), (Flag, 16), (Unary, 10), (Backward, 12), (Leaf, 8), (CloneH, 7), (SumReshape, 5), (Matmul, 6), (Custom, 3), (ReadGrad, 5), (Rebind, 3), (DropH, 3), (Conv, 2), (ClearGrad, 2), (Retrack, 4), (Refused, 2)];
+    cfg.kinds = vec![(Binary, 24), (Flag, 16), (Unary, 10), (Backward, 12), (Leaf, 8), (CloneH, 7), (SumReshape, 5), (Matmul, 6), (Custom, 3), (ReadGrad, 5), (Rebind, 3), (DropH, 3), (Conv, 2), (ClearGrad, 2), (Retrack, 4), (Refused, 2), (Update, 4)];
     cfg.max_steps = t.pick(22, 70);
     cfg.max_elems = t.pick(32, 100);
     cfg.tracked_pct = 55;
